@@ -6,4 +6,7 @@ package sm2
 // Hooks for the verification harness (build tag "verif" only).
 
 // VerifWNaf exposes the windowed-NAF recoding used by ScalarMult (most significant digit first).
-func VerifWNaf(k []byte) []int8 { return WNafReversed(sm2GenrateWNaf(k)) }
+func VerifWNaf(k []byte) []int8 {
+	P256Sm2() // the recoding reads the group order from the lazily initialised curve
+	return WNafReversed(sm2GenrateWNaf(k))
+}
